@@ -7,6 +7,7 @@ import (
 	"errors"
 	"fmt"
 	"io"
+	"io/ioutil"
 	"strings"
 	"time"
 
@@ -85,22 +86,19 @@ func (t WebsocketTransport) StartStream() (string, error) {
 // to process incoming control frames.
 func (t WebsocketTransport) startReader() {
 	go func() {
-		buffer := make([]byte, maxPacketSize)
 		for {
 			_, reader, err := t.wsConn.Reader(t.closeCtx)
 			if err != nil {
 				return
 			}
-			n, err := reader.Read(buffer)
-			if err != nil && err != io.EOF {
+			// A message can be sent in several frames: a single Read only returns (part of) the first one.
+			// The message size is bounded by SetReadLimit.
+			data, err := ioutil.ReadAll(reader)
+			if err != nil {
 				return
 			}
-			if n > 0 {
-				// We need to make a copy, otherwise we will overwrite the slice content
-				// on the next iteration of the for loop.
-				tmp := make([]byte, n)
-				copy(tmp, buffer)
-				t.queue <- tmp
+			if len(data) > 0 {
+				t.queue <- data
 			}
 		}
 	}()
